@@ -11,6 +11,7 @@ mod h_vlq;
 mod h_lookup;
 mod h_header;
 mod h_maps;
+mod h_misc;
 
 pub struct Report { pub harness: &'static str, pub bound: String, pub cases: u64, pub cex: Option<String> }
 
@@ -32,6 +33,11 @@ fn main() {
         "rmi_roundtrip" => h_maps::rmi_roundtrip(),
         "root_setters" => h_maps::root_setters(),
         "builder_model" => h_maps::builder_model(),
+        "relpath" => h_misc::relpath(),
+        "discover" => h_misc::discover(),
+        "sourceview" => h_misc::sourceview(),
+        "function_name" => h_misc::function_name(),
+        "ram_bundle" => h_misc::ram_bundle(),
         "adjust" => h_maps::adjust(false),
         "adjust_dups" => h_maps::adjust(true),
         _ => { eprintln!("unknown harness {name}"); std::process::exit(2); }
